@@ -161,8 +161,8 @@ func timeline(r *Result) []Item {
 				late = d + 3000
 			}
 		}
-		if late > 40000 {
-			late = 40000
+		if late > 150000 {
+			late = 150000
 		}
 	}
 	for _, x := range r.Rec {
